@@ -432,6 +432,27 @@ class BagEOS:
         return (self.eHighT(T) - self.eLowT(T) - (self.pHighT(T) - self.pLowT(T)) / self.csqLowT(T)) / 3 / self.wHighT(T)
 
 
+class SoftEOS(BagEOS):
+    """High-T phase with a temperature-dependent sound speed, p_+ = T^4 (1 - c/(1+(T/Ts)^4)) - eps (entropy positive, cs^2 between ~0.23 and 1/3),
+    low-T phase of template form p_- = amp T^nu, nu = 1 + 1/cb2; eps fixed by Tc = 1.  Closed-form derivatives."""
+
+    def __init__(self, c=0.7, Ts=0.8, amp=0.62, cb2=0.22, Tn=0.8):
+        nu = 1 + 1 / cb2
+        BagEOS.__init__(self, ap=3.0, am=3 * amp, eps=0.0, mu=4.0, nu=nu, Tn=Tn)
+        self.c, self.Ts = c, Ts
+        self.eps = float(1.0 - c / (1 + (1 / Ts) ** 4) - amp)
+
+    def _s(self, T): return (T / self.Ts) ** 4
+    def pHighT(self, T): return T ** 4 * (1 - self.c / (1 + self._s(T))) - self.eps
+    def _G(self, T):
+        s = self._s(T)
+        return 1 - self.c / (1 + s) + self.c * s / (1 + s) ** 2
+    def dpHighT(self, T): return 4 * T ** 3 * self._G(T)
+    def ddpHighT(self, T):
+        s = self._s(T)
+        return 12 * T ** 2 * self._G(T) + 32 * self.c * s * T ** 2 / (1 + s) ** 3
+
+
 def template_from(alN, psiN, cb2, cs2, Tn=1.0, ap=3.0):
     """BagEOS (template form) with prescribed transition strength alpha_n, enthalpy ratio psi_n and sound speeds (cb2 broken, cs2 symmetric)."""
     from scipy.optimize import brentq
